@@ -194,6 +194,6 @@ func pickThreads(rng *rand.Rand, class string) uint16 {
 }
 
 // orderClasses are the restore order classes.
-var orderClasses = []string{"sequential", "reverse", "shuffled", "shuffled-dup", "concurrent4", "abort-restart"}
+var orderClasses = []string{"sequential", "reverse", "shuffled", "shuffled-dup", "concurrent4", "abort-restart", "gated"}
 
 func hexs(b []byte) string { return fmt.Sprintf("%x", b) }
